@@ -258,11 +258,11 @@ theorem ginv_initInternal (s : GState) (i : Nat) (f : FSpec) (h : GInv s) : GInv
 
 theorem throughRuntime_some (slot : State) (flt : Option FSpec) (e : GEvt) (d : Delivery)
     (h : throughRuntime slot flt e = some d) :
-    slot.slot = some d.cfg ∧ d.evt = e ∧ d.amb = some d.cfg ∧ ∃ f, flt = some f ∧ f.accepts e = true := by
+    slot.slot = some d.cfg ∧ d.evt = e ∧ d.amb = some d.cfg ∧ d.clocked = true ∧ ∃ f, flt = some f ∧ f.accepts e = true := by
   unfold throughRuntime at h
   cases hs : slot.slot <;> cases hf : flt <;> simp [hs, hf] at h
   obtain ⟨ha, rfl⟩ := h
-  exact ⟨rfl, rfl, rfl, _, rfl, ha⟩
+  exact ⟨rfl, rfl, rfl, rfl, _, rfl, ha⟩
 
 theorem step_emit_slot (s : State) (e : Nat) : (step s (.emit e)).1.slot = s.slot := by
   cases h : s.slot <;> simp [step, h]
@@ -304,7 +304,7 @@ theorem ginv_step (s : GState) (l : GLabel) (h : GInv s) : GInv (gstep s l).1 :=
     cases ht : throughRuntime s.shared s.sharedF e with
     | none => exact ⟨h1, h2, h3, h4, h5, h6⟩
     | some d =>
-      obtain ⟨hw, _, _, _⟩ := throughRuntime_some _ _ _ _ ht
+      obtain ⟨hw, _, _, _, _⟩ := throughRuntime_some _ _ _ _ ht
       refine ⟨by simpa [step_emit_slot] using h1, h2, by simpa [step_emit_slot] using h3, ?_,
         by simpa [step_emit_slot] using h5, h6⟩
       intro d' hd'
@@ -318,7 +318,7 @@ theorem ginv_step (s : GState) (l : GLabel) (h : GInv s) : GInv (gstep s l).1 :=
     cases ht : throughRuntime s.shared s.sharedF e with
     | none => exact ⟨h1, h2, h3, h4, h5, h6⟩
     | some d =>
-      obtain ⟨hw, _, _, _⟩ := throughRuntime_some _ _ _ _ ht
+      obtain ⟨hw, _, _, _, _⟩ := throughRuntime_some _ _ _ _ ht
       refine ⟨by simpa [step_emit_slot] using h1, h2, by simpa [step_emit_slot] using h3, ?_,
         by simpa [step_emit_slot] using h5, h6⟩
       intro d' hd'
@@ -345,7 +345,7 @@ theorem ginv_step (s : GState) (l : GLabel) (h : GInv s) : GInv (gstep s l).1 :=
     cases ht : throughRuntime s.internal s.internalF e with
     | none => exact ⟨h1, h2, h3, h4, h5, h6⟩
     | some d =>
-      obtain ⟨hw, _, _, _⟩ := throughRuntime_some _ _ _ _ ht
+      obtain ⟨hw, _, _, _, _⟩ := throughRuntime_some _ _ _ _ ht
       refine ⟨h1, by simpa [step_emit_slot] using h2, h3, ?_, h5, h6⟩
       intro d' hd'
       simp only [List.mem_cons] at hd'
@@ -528,15 +528,16 @@ theorem global_inert_before (ls : List GLabel)
 /-- **Through the runtime the configured filter decides; `emit::emitter()` bypasses it.** With `w` in the shared
     slot, set up with filter `f`: an event sent by a macro without `rt:` / `runtime::shared().emit` (and a span,
     on its start event) reaches `w` — with the ambient `cfg = w` — iff `f` accepts it, and nobody otherwise;
-    an event sent through `emit::emitter()` ALWAYS reaches `w`, and arrives WITHOUT ambient properties. -/
+    an event sent through `emit::emitter()` ALWAYS reaches `w`, and arrives WITHOUT ambient properties and WITHOUT
+    a clock-assigned extent. -/
 theorem global_emit_iff_direct_bypasses (s : GState) (w : Nat) (f : FSpec) (hw : s.shared.slot = some w)
     (hf : s.sharedF = some f) (e : GEvt) :
     (gstep s (.emit e)).2 = .sent (if f.accepts e then some w else none) ∧
-    (gstep s (.emit e)).1.delivered = (if f.accepts e then ⟨w, e, some w⟩ :: s.delivered else s.delivered) ∧
+    (gstep s (.emit e)).1.delivered = (if f.accepts e then ⟨w, e, some w, true⟩ :: s.delivered else s.delivered) ∧
     (gstep s (.span e)).2 = .sent (if f.accepts e then some w else none) ∧
-    (gstep s (.span e)).1.delivered = (if f.accepts e then ⟨w, e, some w⟩ :: s.delivered else s.delivered) ∧
+    (gstep s (.span e)).1.delivered = (if f.accepts e then ⟨w, e, some w, true⟩ :: s.delivered else s.delivered) ∧
     (gstep s (.direct e)).2 = .sent (some w) ∧
-    (gstep s (.direct e)).1.delivered = ⟨w, e, none⟩ :: s.delivered := by
+    (gstep s (.direct e)).1.delivered = ⟨w, e, none, false⟩ :: s.delivered := by
   cases ha : f.accepts e <;> simp [gstep, throughRuntime, hw, hf, ha]
 
 /-- **The internal runtime applies the filter it was configured with.** If `init_internal()` /
@@ -548,7 +549,7 @@ theorem internal_uses_configured_filter (s : GState) (hs : s.internal.slot = non
     let s' := (grun (gstep s (.initInternal i f)).1 ls).1
     (gstep s' (.emitInternal e)).2 = .sent (if f.accepts e then some i else none) ∧
     (gstep s' (.emitInternal e)).1.delivered =
-      (if f.accepts e then ⟨i, e, some i⟩ :: s'.delivered else s'.delivered) := by
+      (if f.accepts e then ⟨i, e, some i, true⟩ :: s'.delivered else s'.delivered) := by
   intro s'
   obtain ⟨a, _⟩ := initInternal_spec s i f
   obtain ⟨_, a2, a3⟩ := a hs
@@ -594,7 +595,7 @@ example : (grun g0 [.emit ⟨1, some 3⟩, .direct ⟨2, none⟩, .flush 0, .obs
 example : (grun g0 [.init 1 .none, .emit ⟨1, some 3⟩, .direct ⟨2, some 3⟩, .init 2 .all, .emit ⟨3, none⟩]).2 =
     [.inited false, .sent none, .sent (some 1), .inited true, .sent none] := by decide
 example : (gfinal [.initGuard 1 (.minLvl 2) 499, .emit ⟨1, some 1⟩, .emit ⟨2, some 2⟩, .dropGuard, .dropGuard]).flushes = [(1, 499)] ∧
-    (gfinal [.initGuard 1 (.minLvl 2) 499, .emit ⟨1, some 1⟩, .emit ⟨2, some 2⟩]).delivered = [⟨1, ⟨2, some 2⟩, some 1⟩] := by decide
+    (gfinal [.initGuard 1 (.minLvl 2) 499, .emit ⟨1, some 1⟩, .emit ⟨2, some 2⟩]).delivered = [⟨1, ⟨2, some 2⟩, some 1, true⟩] := by decide
 example : (grun g0 [.initInternal 1 (.minLvl 2), .initInternal 2 .all, .emitInternal ⟨1, some 1⟩, .emitInternal ⟨2, some 3⟩]).2 =
     [.inited false, .inited true, .sent none, .sent (some 1)] := by decide
 
